@@ -9,6 +9,9 @@ assert subprocess.run(["git", "-C", "/repo", "status", "--porcelain"], capture_o
 for n in names:
     meta = json.load(open("/verif/seeded/%s/meta.json" % n))
     prop = meta["breaks_property"]
+    if meta.get("expected") == "harmless-after-fix":
+        out[n] = {"property": prop, "exit": None, "violations": 0, "note": "neutralised by a fix: commit, not expected to be detected"}
+        continue
     if subprocess.run(["git", "-C", "/repo", "apply", "/verif/seeded/%s/patch.diff" % n]).returncode:
         out[n] = {"property": prop, "exit": None, "violations": 0, "error": "patch does not apply"}
         print("%-50s %s PATCH DOES NOT APPLY" % (n, prop), flush=True)
@@ -21,5 +24,5 @@ for n in names:
     finally:
         subprocess.run(["git", "-C", "/repo", "checkout", "--", "."], check=True)
 json.dump(out, open("/verif/seeded/RESULTS.json", "w"), indent=1)
-missed = [n for n, r in out.items() if r["exit"] != 1]
+missed = [n for n, r in out.items() if r["exit"] != 1 and "note" not in r]
 print("missed by the owning check:", missed)
